@@ -1,6 +1,6 @@
 """C07 - geometric quantities match their textbook definitions, are invariant / covariant under rigid motion,
 renumbering and uniform scaling; identities (angle sum, Gauss-Bonnet, constants through interpolation)."""
-import math, random
+import math, os, random
 import numpy as np
 from hypothesis import strategies as st
 from vlib.runner import SubCheck
@@ -21,7 +21,10 @@ RULE = ("Well-shaped oriented manifold surfaces: (tri_surface) triangulations fr
         "every weighting mode / zero_border value / early-stopping count n, in a shuffled order on ONE mesh object (so cached 'angles', "
         "'cotan', 'area', 'normals' attributes interact); every result is compared with vlib.ref_geometry. Three further fresh meshes "
         "(rigidly moved, scaled, renumbered - built with numpy, never through mouette.transform) are evaluated the same way with one "
-        "drawn option combination per function and compared with the base results through the expected transformation law. "
+        "drawn option combination per function and compared with the base results through the expected transformation law. The all-default "
+        "call of every function is issued twice on the base mesh (second call finds the attribute registered by the first); the mesh "
+        "(vertices, faces, cells) and every attribute passed as an argument must be unchanged afterwards; one case in five is snapped to an "
+        "integer lattice and handed over with numpy-int64 / python-int coordinates. "
         "(interpolation) every interpolate_/scatter_/average_ function x weight mode x scalar/vector x dense/sparse input and output on "
         "a constant and on a random attribute. (nonconvex_face) one planar simple polygon with 4-8 vertices, star-shaped, with at least "
         "one reflex corner (optionally with an out-of-plane neighbour triangle): face_area / face_normals / face_barycenter / total_area "
@@ -30,13 +33,28 @@ RULE = ("Well-shaped oriented manifold surfaces: (tri_surface) triangulations fr
 ASSUMPTIONS = [
     "faces are planar (relative defect <= 1e-9) and strictly convex with corner angles in [10, 165] degrees (triangles: min angle 8 degrees); "
     "cells have |det| >= 1e-6; no isolated vertices",
-    "scale factors in [1/32, 32], translations within [-20, 20]^3 (keeps every tolerance meaningful: rel. 1e-9 of the quantity + 1e-12 L^p)",
+    "scale factors in [1e-6, 1e6] (a third tiny <= 1e-3, a third huge >= 1e3), translations within [-20, 20]^3 on the unit-size mesh "
+    "(tolerances: rel. 1e-9 of the quantity + 1e-12 L^p with L the coordinate magnitude of the mesh at hand)",
+    "face_circumcenter is evaluated only when every triangle has 2*area >= 1e-10 unless PENDING['circumcenter_tiny'] (defect C07-4); a second "
+    "interpolation into an already used output attribute is asserted only with PENDING['reused_output'] (defect C07-5)",
     "persistent calls on one mesh use pairwise distinct attribute names (re-creating an existing name is C05's subject)",
     "vertex_normals(mode) is evaluated only on meshes where |sum w n| / sum w >= 0.05 at every vertex (well-defined direction; a folded "
     "vertex star whose normals cancel is a degenerate element)",
 ]
 
 TOL = 1e-9
+
+# Oracles that the library is known to break at the time of writing. Each has a proposed fix in scratch/fixes and a matcher below.
+# They are OFF by default (so that the check is green on the tree without those fixes) and are switched on by naming them in the
+# environment variable C07_PENDING (comma separated), or by flipping the default here once the fix is committed / the finding listed.
+#   circumcenter_tiny : face_circumcenter on triangles with 2*area < 1e-10 (geometry.intersect_2lines2D tests |det| < 1e-12 on
+#                       edge-sized direction vectors, so meshes with edge lengths <~ 1e-6 are reported 'parallel' -> AttributeError)
+#   reused_output     : interpolate_faces_to_vertices / average_corners_to_* called a second time into the same output attribute
+#                       accumulate instead of overwriting (area / angle / some uniform / sum modes), unlike interpolate_vertices_to_faces
+PENDING = {"circumcenter_tiny": False, "reused_output": False}
+for _k in os.environ.get("C07_PENDING", "").split(","):
+    if _k.strip() in PENDING:
+        PENDING[_k.strip()] = True
 
 # --------------------------------------------------------------------------------------------- quantity tables
 # qname -> (container key, kind).  containers: V vertices, E edges, C face corners, F faces, K cells, G global
@@ -85,6 +103,49 @@ DOCUMENTED_RAISE = ("angle_defects", "cotangent", "face_circumcenter")      # do
 
 
 # --------------------------------------------------------------------------------------------- small helpers
+
+def int_form_of(V, seed):
+    """integer-valued coordinates are handed to the library as integers two times out of three (numpy int64 rows / python ints)"""
+    if not bool(np.all(V == np.round(V))) or float(np.max(np.abs(V))) > 2 ** 40:
+        return None
+    return (None, "numpy-int", "python-int")[seed % 3]
+
+
+def build_mesh(V, F=None, C=None, int_form=None):
+    import mouette as M
+    if int_form is None:
+        return surface_from(V.tolist(), F) if C is None else volume_from(V.tolist(), C)
+    from mouette.mesh.mesh_data import RawMeshData
+    raw = RawMeshData()
+    if int_form == "numpy-int":
+        raw.vertices += [np.array([int(x) for x in v], dtype=np.int64) for v in V]
+    else:
+        raw.vertices += [[int(x) for x in v] for v in V]
+    if C is None:
+        raw.faces += [list(f) for f in F]
+        return M.mesh.SurfaceMesh(raw)
+    raw.cells += [list(c) for c in C]
+    return M.mesh.VolumeMesh(raw)
+
+
+def mesh_unchanged(ctx, mesh, V, where, F=None, C=None):
+    """(b) the mesh handed to the attribute functions is an argument: its geometry and element lists must come back untouched"""
+    cur = np.array([[float(x) for x in v] for v in mesh.vertices], dtype=float).reshape(-1, 3)
+    ctx.check(cur.shape == V.shape and bool(np.array_equal(cur, V)), "mesh-modified:vertices", f"{where}: vertex coordinates changed during the attribute calls")
+    if F is not None:
+        ctx.check([ints(f) for f in mesh.faces] == [list(f) for f in F], "mesh-modified:faces", f"{where}: face list changed during the attribute calls")
+    if C is not None:
+        ctx.check([ints(c) for c in mesh.cells] == [list(c) for c in C], "mesh-modified:cells", f"{where}: cell list changed during the attribute calls")
+
+
+def circumcenter_in_reach(ctx, V, tris, where):
+    if PENDING["circumcenter_tiny"]:
+        return True
+    if 2 * float(np.min(R.face_areas(V, tris))) >= 1e-10:
+        return True
+    ctx.discard("face_circumcenter not evaluated: a triangle has 2*area < 1e-10 (absolute parallel-lines threshold; C07-4 pending)")
+    return False
+
 
 def coord_scale(V):
     return float(max(1e-300, np.max(np.abs(V))))
@@ -200,6 +261,8 @@ def run_attribute_calls(ctx, mesh, funcs, ref, masks, sizes, L, rnd, where, full
             uid += 1
             calls.append(("attr", spec, p, d, f"c07_{q}_{uid}"))
         if full and spec[5] is not None:
+            # twice: the second call finds the attribute of the first one registered under the same (default) name
+            calls.append(("default", spec, True, True, spec[5]))
             calls.append(("default", spec, True, True, spec[5]))
     calls += extra_calls
     rnd.shuffle(calls)
@@ -285,11 +348,11 @@ def mean_calls(ctx, mesh, fname, qname, per_elem_ref, kind, L, rnd, where, full,
     return res
 
 
-def evaluate_surface(ctx, V, F, rnd, where, full):
+def evaluate_surface(ctx, V, F, rnd, where, full, int_form=None):
     """build a fresh SurfaceMesh from (V, F), run everything, compare with the reference. Returns (values, mesh edges) or None"""
     import mouette as M
     A = M.attributes
-    mesh = surface_from(V.tolist(), F)
+    mesh = build_mesh(V, F=F, int_form=int_form)
     medges = [tuple(ints(e)) for e in mesh.edges]
     if not ctx.check(len(set(medges)) == len(medges) and set(medges) == R.edges_of_faces(F), "edges",
                      f"{where}: mesh.edges is not the set of face sides (low index first)"):
@@ -316,7 +379,8 @@ def evaluate_surface(ctx, V, F, rnd, where, full):
     if tri:
         ref["defect"] = R.angle_defects(V, F, False); ref["defect0"] = R.angle_defects(V, F, True)
         ref["cotan"] = R.corner_cotangents(V, F); ref["cotw"] = R.cotan_edge_weights(V, F, medges)
-        ref["circum"] = R.face_circumcenters(V, F)
+        if circumcenter_in_reach(ctx, V, F, where):
+            ref["circum"] = R.face_circumcenters(V, F)
     chi = R.euler_characteristic(nV, F)
 
     extra = []
@@ -366,6 +430,9 @@ def evaluate_surface(ctx, V, F, rnd, where, full):
             vals = read_attr(ctx, "vertex_normals:custom", attr, nV, 3, w)
             if vals is not None:
                 compare(ctx, "ref:vertex_normals:custom", vals, exp, "dir", L, w, qual >= 0.05)
+            back = read_attr(ctx, "vertex_normals:custom", cattr, nF, 3, w + " [custom_fnormals afterwards]")
+            if back is not None:
+                ctx.check(bool(np.array_equal(back, cn)), "input-modified:vertex_normals:custom_fnormals", f"{w}: the custom_fnormals attribute was modified")
     if full or rnd.randrange(3) == 0:
         extra.append(("glob", custom))
 
@@ -394,6 +461,7 @@ def evaluate_surface(ctx, V, F, rnd, where, full):
 
     out = run_attribute_calls(ctx, mesh, SURF_FUNCS, ref, masks, sizes, L, rnd, where, full, extra)
     out["_masks"] = masks
+    mesh_unchanged(ctx, mesh, V, where, F=F)
     return out, medges, ref
 
 
@@ -473,8 +541,13 @@ def metamorphic(ctx, out0, outk, var, Lk, where):
 def motion(draw):
     q = draw(st.tuples(*[st.integers(-9, 9)] * 4).filter(lambda t: any(t)))
     tr = [draw(st.floats(-20, 20, allow_nan=False, width=64)) for _ in range(3)]
+    # a third moderate, a third tiny (1e-6 .. 1e-3), a third huge (1e3 .. 1e6); log-uniform or round powers of ten
     s = draw(st.one_of(st.sampled_from([0.5, 2.0, 0.25, 4.0, 1.0 / 32, 32.0, 3.0, 0.1, 10.0]),
-                       st.floats(1.0 / 32, 32.0, allow_nan=False)))
+                       st.floats(1.0 / 32, 32.0, allow_nan=False),
+                       st.sampled_from([1e-3, 1e-4, 1e-5, 1e-6]),
+                       st.integers(-60, -30).map(lambda k: 10.0 ** (k / 10.0)),
+                       st.sampled_from([1e3, 1e4, 1e5, 1e6]),
+                       st.integers(30, 60).map(lambda k: 10.0 ** (k / 10.0))))
     return {"quat": list(q), "trans": tr, "scale": s}
 
 
@@ -486,9 +559,23 @@ def surface_relabelling(draw, V, F):
     return {"vperm": vperm, "fperm": fperm, "frot": frot}
 
 
+def snap_to_lattice(draw, V, ok):
+    """one case in five: coordinates multiplied by 4 and rounded to integers (kept when the mesh stays well shaped); such meshes
+    are handed to the library with integer-typed coordinates"""
+    if draw(st.integers(0, 4)) != 0:
+        return V, False
+    Vi = [[float(round(4 * x)) for x in v] for v in V]
+    if ok(Vi):
+        return Vi, True
+    return V, False
+
+
 @st.composite
 def tri_case(draw, max_faces=44):
     s = draw(G.well_shaped_trisurf(max_faces=max_faces))
+    s["V"], snapped = snap_to_lattice(draw, s["V"], lambda Vi: poly_ok(Vi, s["F"]))
+    if snapped:
+        s["tags"] = s["tags"] + ["lattice"]
     c = {"V": s["V"], "F": s["F"], "tags": s["tags"], "seed": draw(st.integers(0, 10 ** 6))}
     c.update(draw(motion()))
     c.update(surface_relabelling(draw, c["V"], c["F"]))
@@ -586,6 +673,9 @@ def poly_case(draw, max_faces=36):
         tags.append("relabelled")
     V = [[float(x) for x in v] for v in V]
     F = [list(map(int, f)) for f in F]
+    V, snapped = snap_to_lattice(draw, V, lambda Vi: poly_ok(Vi, F))
+    if snapped:
+        tags.append("lattice")
     assert poly_ok(V, F), "poly generator produced an invalid case"
     c = {"V": V, "F": F, "tags": tags + G.tags_of(V, F), "seed": draw(st.integers(0, 10 ** 6))}
     c.update(draw(motion()))
@@ -597,7 +687,8 @@ def poly_case(draw, max_faces=36):
 def tet_case(draw, max_cells=30):
     s = draw(GT.tets(max_cells=max_cells))
     V, C = s["V"], s["C"]
-    c = {"V": V, "C": C, "tags": s["tags"], "seed": draw(st.integers(0, 10 ** 6))}
+    V, snapped = snap_to_lattice(draw, V, lambda Vi: GT.valid(Vi, C) and all(GT.lib_det(Vi, c) * GT.lib_det(V, c) > 0 for c in C))
+    c = {"V": V, "C": C, "tags": s["tags"] + (["lattice"] if snapped else []), "seed": draw(st.integers(0, 10 ** 6))}
     c.update(draw(motion()))
     c["vperm"] = list(draw(st.permutations(list(range(len(V))))))
     c["cperm"] = list(draw(st.permutations(list(range(len(C))))))
@@ -609,6 +700,7 @@ def tet_case(draw, max_cells=30):
 def interp_case(draw):
     s = draw(st.one_of(tri_case(max_faces=30), poly_case(max_faces=24)))
     c = {"V": s["V"], "F": s["F"], "tags": s["tags"], "seed": draw(st.integers(0, 10 ** 6)),
+         "scale": s["scale"] if draw(st.booleans()) else 1.0,
          "const": draw(st.floats(-50, 50, allow_nan=False).filter(lambda x: abs(x) > 1e-3)),
          "cvec": [draw(st.floats(-50, 50, allow_nan=False)) for _ in range(3)],
          "precompute": draw(st.booleans())}
@@ -648,8 +740,11 @@ def fn_surface(case, ctx):
     ctx.nontrivial((not ident) and ((not bv and len(F) >= 4) or (bv and len(bv) < len(V))))
     ctx.label("border+interior" if (bv and len(bv) < len(V)) else "closed" if not bv else "border-only")
     rnd = random.Random(case["seed"])
+    ctx.label("scale=tiny(<=1e-3)" if s <= 1e-3 else "scale=huge(>=1e3)" if s >= 1e3 else "scale=moderate")
+    iform = int_form_of(V, case["seed"])
+    ctx.label("coords=" + (iform or "float"))
 
-    r0 = evaluate_surface(ctx, V, F, rnd, "base mesh", True)
+    r0 = evaluate_surface(ctx, V, F, rnd, "base mesh" + (f" ({iform} coordinates)" if iform else ""), True, iform)
     if r0 is None:
         return
     out0, medges0, refv = r0
@@ -675,7 +770,7 @@ def fn_surface(case, ctx):
         g = [vperm[v] for v in F[fperm[k]]]
         r = frot[k] % len(g)
         F3.append(g[r:] + g[:r])
-    r3 = evaluate_surface(ctx, V3, F3, rnd, "renumbered mesh", False)
+    r3 = evaluate_surface(ctx, V3, F3, rnd, "renumbered mesh" + (f" ({iform} coordinates)" if iform else ""), False, iform)
     if r3 is not None:
         inv = [0] * nV
         for i, j in enumerate(vperm):
@@ -703,10 +798,10 @@ def perms4():
     return PERMS4
 
 
-def evaluate_tets(ctx, V, C, rnd, where, full):
+def evaluate_tets(ctx, V, C, rnd, where, full, int_form=None):
     import mouette as M
     A = M.attributes
-    mesh = volume_from(V.tolist(), C)
+    mesh = build_mesh(V, C=C, int_form=int_form)
     medges = [tuple(ints(e)) for e in mesh.edges]
     if not ctx.check(len(set(medges)) == len(medges) and set(medges) == R.edges_of_cells(C), "edges",
                      f"{where}: mesh.edges is not the set of cell edges (low index first)"):
@@ -721,8 +816,10 @@ def evaluate_tets(ctx, V, C, rnd, where, full):
     L = coord_scale(V)
     sizes = {"V": len(V), "E": len(medges), "F": len(mfaces), "K": len(C)}
     ref = {"degree": R.vertex_degrees(len(V), medges), "length": R.edge_lengths(V, medges), "middle": R.edge_midpoints(V, medges),
-           "area": R.face_areas(V, mfaces), "fbary": R.face_barycenters(V, mfaces), "circum": R.face_circumcenters(V, mfaces),
+           "area": R.face_areas(V, mfaces), "fbary": R.face_barycenters(V, mfaces),
            "volume": R.tet_volumes(V, C), "cbary": R.cell_barycenters(V, C)}
+    if circumcenter_in_reach(ctx, V, mfaces, where):
+        ref["circum"] = R.face_circumcenters(V, mfaces)
     extra = []
 
     def bary(call, out, hist):
@@ -757,6 +854,7 @@ def evaluate_tets(ctx, V, C, rnd, where, full):
     if "volume" in out and "mean_vol" in out:
         ctx.check(abs(float(out["mean_vol"]) * len(C) - float(np.sum(out["volume"]))) <= tol_of("vol", out["volume"], L) * len(C),
                   "identity:mean-volume", f"{where}: mean_cell_volume * #cells != sum of cell_volume")
+    mesh_unchanged(ctx, mesh, V, where, C=C)
     return out, medges, mfaces
 
 
@@ -770,7 +868,10 @@ def fn_tets(case, ctx):
     Rm, tr, s, ident = motion_of(case)
     ctx.nontrivial((not ident) and len(C) >= 2)
     rnd = random.Random(case["seed"])
-    r0 = evaluate_tets(ctx, V, C, rnd, "base mesh", True)
+    ctx.label("scale=tiny(<=1e-3)" if s <= 1e-3 else "scale=huge(>=1e3)" if s >= 1e3 else "scale=moderate")
+    iform = int_form_of(V, case["seed"])
+    ctx.label("coords=" + (iform or "float"))
+    r0 = evaluate_tets(ctx, V, C, rnd, "base mesh" + (f" ({iform} coordinates)" if iform else ""), True, iform)
     if r0 is None:
         return
     out0, medges0, mfaces0 = r0
@@ -790,7 +891,7 @@ def fn_tets(case, ctx):
         g = [vperm[v] for v in C[cperm[k]]]
         p = perms4()[cvperm[k] % 24]
         C3.append([g[j] for j in p])
-    r3 = evaluate_tets(ctx, V3, C3, rnd, "renumbered mesh", False)
+    r3 = evaluate_tets(ctx, V3, C3, rnd, "renumbered mesh" + (f" ({iform} coordinates)" if iform else ""), False, iform)
     if r3 is not None:
         inv = [0] * len(V)
         for i, j in enumerate(vperm):
@@ -812,6 +913,9 @@ def fn_interp(case, ctx):
         ctx.label(t)
     rnd = random.Random(case["seed"])
     nrnd = np.random.RandomState(case["seed"] % (2 ** 31))
+    sc = float(case.get("scale", 1.0))
+    V = sc * V          # the weights (areas, angles) must be insensitive to the absolute size of the mesh
+    ctx.label("scale=tiny(<=1e-3)" if sc <= 1e-3 else "scale=huge(>=1e3)" if sc >= 1e3 else "scale=moderate")
     mesh = surface_from(V.tolist(), F)
     if [ints(f) for f in mesh.faces] != [list(f) for f in F]:
         ctx.fail("faces", "mesh.faces differs from the input face list")
@@ -830,64 +934,77 @@ def fn_interp(case, ctx):
     for f in F:
         for v in f:
             cnt_vf[v] += 1
-    # (function, source container, target container, weight or None, reference, multiplicity of 'sum')
-    jobs = [("interpolate_vertices_to_faces", "V", "F", None, lambda x, w: R.vertices_to_faces(F, x), None),
-            ("scatter_vertices_to_corners", "V", "C", None, lambda x, w: np.array([x[v] for f in F for v in f]), None),
-            ("scatter_faces_to_corners", "F", "C", None, lambda x, w: np.array([x[k] for k, f in enumerate(F) for v in f]), None)]
-    for w in ("uniform", "area", "angle", "sum"):
-        jobs.append(("interpolate_faces_to_vertices", "F", "V", w, lambda x, w: R.faces_to_vertices(V, F, x, w), cnt_vf))
-    for w in ("uniform", "angle", "sum"):
-        jobs.append(("average_corners_to_vertices", "C", "V", w, lambda x, w: R.corners_to_vertices(V, F, x, w), cnt_vf))
-        jobs.append(("average_corners_to_faces", "C", "F", w, lambda x, w: R.corners_to_faces(V, F, x, w), cnt_fc))
+    # (function, source container, target container, weights, reference, multiplicity of 'sum')
+    jobs = [("interpolate_vertices_to_faces", "V", "F", [None], lambda x, w: R.vertices_to_faces(F, x), None),
+            ("scatter_vertices_to_corners", "V", "C", [None], lambda x, w: np.array([x[v] for f in F for v in f]), None),
+            ("scatter_faces_to_corners", "F", "C", [None], lambda x, w: np.array([x[k] for k, f in enumerate(F) for v in f]), None),
+            ("interpolate_faces_to_vertices", "F", "V", ["uniform", "area", "angle", "sum"], lambda x, w: R.faces_to_vertices(V, F, x, w), cnt_vf),
+            ("average_corners_to_vertices", "C", "V", ["uniform", "angle", "sum"], lambda x, w: R.corners_to_vertices(V, F, x, w), cnt_vf),
+            ("average_corners_to_faces", "C", "F", ["uniform", "angle", "sum"], lambda x, w: R.corners_to_faces(V, F, x, w), cnt_fc)]
     rnd.shuffle(jobs)
     uid = 0
-    for (fname, src, dst, w, reff, mult) in jobs:
+    for (fname, src, dst, weights, reff, mult) in jobs:
         f = getattr(A, fname)
+        (csrc, nsrc), (cdst, ndst) = cont[src], cont[dst]
         for what in ("const", "random"):
             for dim in (1, 3):
                 uid += 1
-                din, dout = rnd.randrange(2) == 0, rnd.randrange(2) == 0
-                (csrc, nsrc), (cdst, ndst) = cont[src], cont[dst]
+                din = rnd.randrange(2) == 0
                 by_default = (what == "const" and dim == 1 and not din and rnd.randrange(2) == 0)
                 if what == "const":
                     cv = float(case["const"]) if dim == 1 else np.array(case["cvec"], dtype=float)
                     x = np.array([cv] * nsrc, dtype=float)
                 else:
                     x = nrnd.uniform(-1, 1, (nsrc,) if dim == 1 else (nsrc, 3))
+                # ONE input attribute object serves every weight mode of the function (argument reuse)
                 if by_default:
                     ain = csrc.create_attribute(f"c07_in_{uid}", float, dim, dense=False, default_value=float(cv))
                 else:
                     ain = csrc.create_attribute(f"c07_in_{uid}", float, dim, dense=din)
                     for i in range(nsrc):
                         ain[i] = float(x[i]) if dim == 1 else x[i]
-                aout = cdst.create_attribute(f"c07_out_{uid}", float, dim, dense=dout)
-                desc = (f"{fname}(mesh, <{what} {'scalar' if dim == 1 else 'vector'} attribute, {'dense' if din else 'sparse'}"
-                        f"{' via default value' if by_default else ''}>, <fresh {'dense' if dout else 'sparse'} output>"
-                        + (f", weight={w!r})" if w else ")"))
-                sig = fname + (":" + w if w else "")
-                ok, r = (ctx.call(sig, f, mesh, ain, aout, w) if w else ctx.call(sig, f, mesh, ain, aout))
-                if not ok:
-                    continue
-                vals = read_attr(ctx, sig, r, ndst, dim, desc)
-                if vals is None:
-                    continue
-                if what == "const":
-                    exp = np.array([cv] * ndst, dtype=float)
-                    if w == "sum":
-                        exp = exp * (mult if dim == 1 else mult[:, None])
-                    m = float(np.max(np.abs(exp)))
-                    i, g, e, d = worst(vals, exp)
-                    ctx.check(d <= 1e-10 * max(m, 1e-300), "const:" + sig,
-                              f"{desc}: element {i} is {fmt(g)}, expected {fmt(e)}" + (" (count x constant)" if w == "sum" else " (the constant)"))
-                else:
-                    exp = reff(x, w)
-                    i, g, e, d = worst(vals, exp)
-                    ctx.check(d <= 1e-9 * max(1.0, float(np.max(np.abs(exp)))), "ref:" + sig,
-                              f"{desc}: element {i} is {fmt(g)}, the documented weighted mean gives {fmt(e)}")
-                # the input must not be modified
-                back = read_attr(ctx, sig, ain, nsrc, dim, desc + " [input attribute afterwards]")
+                ws = list(weights)
+                rnd.shuffle(ws)
+                for w in ws:
+                    dout = rnd.randrange(2) == 0
+                    aout = cdst.create_attribute(f"c07_out_{uid}_{w}", float, dim, dense=dout)
+                    desc = (f"{fname}(mesh, <{what} {'scalar' if dim == 1 else 'vector'} attribute, {'dense' if din else 'sparse'}"
+                            f"{' via default value' if by_default else ''}>, <fresh {'dense' if dout else 'sparse'} output>"
+                            + (f", weight={w!r})" if w else ")") + f" [weights so far on this input: {ws[:ws.index(w)]}]")
+                    sig = fname + (":" + w if w else "")
+                    ok, r = (ctx.call(sig, f, mesh, ain, aout, w) if w else ctx.call(sig, f, mesh, ain, aout))
+                    if not ok:
+                        continue
+                    vals = read_attr(ctx, sig, r, ndst, dim, desc)
+                    if vals is None:
+                        continue
+                    if what == "const":
+                        exp = np.array([cv] * ndst, dtype=float)
+                        if w == "sum":
+                            exp = exp * (mult if dim == 1 else mult[:, None])
+                        m = float(np.max(np.abs(exp)))
+                        i, g, e, d = worst(vals, exp)
+                        ctx.check(d <= 1e-10 * max(m, 1e-300), "const:" + sig,
+                                  f"{desc}: element {i} is {fmt(g)}, expected {fmt(e)}" + (" (count x constant)" if w == "sum" else " (the constant)"))
+                    else:
+                        exp = reff(x, w)
+                        i, g, e, d = worst(vals, exp)
+                        ctx.check(d <= 1e-9 * max(1.0, float(np.max(np.abs(exp)))), "ref:" + sig,
+                                  f"{desc}: element {i} is {fmt(g)}, the documented weighted mean gives {fmt(e)}")
+                    if PENDING["reused_output"]:
+                        # the same call a second time into the SAME output attribute must give the same values again
+                        ok, r2 = (ctx.call(sig, f, mesh, ain, aout, w) if w else ctx.call(sig, f, mesh, ain, aout))
+                        if ok:
+                            v2 = read_attr(ctx, sig, r2, ndst, dim, desc + " [second call, same output attribute]")
+                            if v2 is not None:
+                                i, g, e, d = worst(v2, vals)
+                                ctx.check(d <= 1e-10 * max(1.0, float(np.max(np.abs(vals)))), "reused-output:" + sig,
+                                          f"{desc}: called a second time into the same output attribute, element {i} becomes {fmt(g)} (first call: {fmt(e)})")
+                # the input must not be modified by any of the calls
+                back = read_attr(ctx, fname, ain, nsrc, dim, f"{fname}: input attribute after weights {ws}")
                 if back is not None:
-                    ctx.check(bool(np.array_equal(back, x)), "input-modified:" + sig, f"{desc}: the input attribute was modified")
+                    ctx.check(bool(np.array_equal(back, x)), "input-modified:" + fname, f"{fname}: the input attribute was modified (weights {ws})")
+    mesh_unchanged(ctx, mesh, V, "interpolation mesh", F=F)
 
 
 # --------------------------------------------------------------------------------------------- non-convex planar faces
@@ -984,11 +1101,11 @@ def self_test():
 
 
 SUBCHECKS = [
-    SubCheck("tri_surface", tri_case(), fn_surface, quick=480, thorough=600),
-    SubCheck("poly_surface", poly_case(), fn_surface, quick=420, thorough=500),
-    SubCheck("tet_volume", tet_case(), fn_tets, quick=240, thorough=300),
-    SubCheck("interpolation", interp_case(), fn_interp, quick=240, thorough=250),
-    SubCheck("nonconvex_face", nonconvex_case(), fn_nonconvex, quick=200, thorough=200),
+    SubCheck("tri_surface", tri_case(), fn_surface, quick=720, thorough=600),
+    SubCheck("poly_surface", poly_case(), fn_surface, quick=600, thorough=500),
+    SubCheck("tet_volume", tet_case(), fn_tets, quick=360, thorough=300),
+    SubCheck("interpolation", interp_case(), fn_interp, quick=360, thorough=250),
+    SubCheck("nonconvex_face", nonconvex_case(), fn_nonconvex, quick=240, thorough=200),
 ]
 
 def kf_nonconvex_faces(case, violation):
@@ -1003,4 +1120,31 @@ def kf_nonconvex_faces(case, violation):
     return any(a < 0 for a in rows)
 
 
-MATCHERS = {"kf_nonconvex_faces": kf_nonconvex_faces}
+def _min_double_area(case):
+    V = np.array(case["V"], dtype=float)
+    if "C" in case:
+        tris = [[c[j] for j in range(4) if j != i] for c in case["C"] for i in range(4)]
+    else:
+        tris = [f for f in case["F"] if len(f) == 3]
+    return 2 * float(np.min(R.face_areas(V, tris))) if tris else float("inf")
+
+
+def kf_circumcenter_tiny_triangle(case, violation):
+    """(only reachable with PENDING['circumcenter_tiny']) face_circumcenter fails / is wrong on the scaled mesh when a triangle has
+    2*area < 1e-10: geometry.intersect_2lines2D calls the two bisectors parallel because |det| < 1e-12 is an absolute test"""
+    if violation.sub_check not in ("tri_surface", "poly_surface", "tet_volume"):
+        return False
+    if "face_circumcenter" not in violation.signature and "circum" not in violation.signature:
+        return False
+    s = float(case.get("scale", 1.0))
+    return "scaled by" in violation.message and _min_double_area(case) * s * s < 1e-10
+
+
+def kf_reused_output(case, violation):
+    """(only reachable with PENDING['reused_output']) a second interpolation into the same output attribute accumulates"""
+    return violation.sub_check == "interpolation" and violation.signature.startswith("reused-output:") and \
+        violation.signature.split(":")[1] in ("interpolate_faces_to_vertices", "average_corners_to_vertices", "average_corners_to_faces")
+
+
+MATCHERS = {"kf_nonconvex_faces": kf_nonconvex_faces, "kf_circumcenter_tiny_triangle": kf_circumcenter_tiny_triangle,
+            "kf_reused_output": kf_reused_output}
